@@ -1,7 +1,7 @@
 (* Functional mirror of wcmatch/_wcparse.py : class WcSplit (795-918): split a pattern at top-level `|`.
    No proofs in this file. *)
 From WC Require Import Str WcParse.
-From WC.Gen Require Import Consts FlagFuns.
+From WC.Gen Require Import Consts Posix FlagFuns.
 Import Mwcparse.
 Open Scope nat_scope.
 
@@ -9,7 +9,7 @@ Record scfg := { s_pathname : bool; s_extend : bool; s_bslash_abort : bool }.
 
 Definition mk_scfg (P : platform) (flags : Z) : scfg :=
   {| s_pathname := has flags PATHNAME; s_extend := has flags EXTMATCH;
-     s_bslash_abort := negb (is_unix_style P flags) |}.
+     s_bslash_abort := negb (is_unix_style P flags) && has flags PATHNAME |}.
 
 (* iterator over the remaining text, with its absolute index *)
 Record sit := { sidx : nat; srest : str }.
@@ -26,7 +26,14 @@ Definition s_references (cf : scfg) (it : sit) (sequence : bool) : option (sit +
     else Some (inl it1)
   end.
 
-(* the `while c != ']'` loop of _sequence (817-824): None = StopIteration *)
+(* `i.match(RE_POSIX)`: step over `:name:]` when one of the 14 class names stands here (the names do not depend on str/bytes) *)
+Definition s_posix (it : sit) : sit :=
+  match posix_find table_u (srest it) with
+  | Some (_, n) => {| sidx := sidx it + n; srest := drop n (srest it) |}
+  | None => it
+  end.
+
+(* the `while c != ']'` loop of _sequence: None = StopIteration *)
 Fixpoint s_seq_loop (fuel : nat) (cf : scfg) (c : ch) (it : sit) : option sit :=
   match fuel with
   | O => None
@@ -34,7 +41,8 @@ Fixpoint s_seq_loop (fuel : nat) (cf : scfg) (c : ch) (it : sit) : option sit :=
     if N.eqb c cRB then Some it
     else
       let after : option sit :=
-        if N.eqb c cBS then
+        if N.eqb c cLB then Some (s_posix it)       (* the `]` of a POSIX class does not close the sequence *)
+        else if N.eqb c cBS then
           match s_references cf it true with
           | Some (inl it1) => Some it1
           | _ => None
@@ -52,11 +60,13 @@ Definition s_sequence (cf : scfg) (it : sit) : option sit :=
   match snext it with
   | None => None
   | Some (c0, it0) =>
-    let s1 := if N.eqb c0 cEX then snext it0 else Some (c0, it0) in
+    let s1 := if N.eqb c0 cEX || N.eqb c0 cHAT then snext it0 else Some (c0, it0) in
     match s1 with
     | None => None
     | Some (c1, it1) =>
-      let s2 := if N.eqb c1 cHAT || N.eqb c1 cMINUS || N.eqb c1 cLB then snext it1 else Some (c1, it1) in
+      (* first member: a POSIX class or a literal `[`; a literal `-` or `]` *)
+      let s2 := if N.eqb c1 cLB then snext (s_posix it1)
+                else if N.eqb c1 cMINUS || N.eqb c1 cRB then snext it1 else Some (c1, it1) in
       match s2 with
       | None => None
       | Some (c2, it2) => s_seq_loop (S (length (srest it2))) cf c2 it2
@@ -66,7 +76,7 @@ Definition s_sequence (cf : scfg) (it : sit) : option sit :=
 
 (* parse_extend (844-878).  Returns (success, iterator).  On failure the iterator is rewound to `index`,
    which the Python code *overwrites* with the position after the last `[` seen in this list; [back]
-   carries that iterator. *)
+   carries that iterator.  (Since the fix 26fc43f the inner bracket has a rewind position of its own: [back] stays put.) *)
 Fixpoint s_ext (fuel : nat) (cf : scfg) (it : sit) : bool * sit :=
   match fuel with
   | O => (false, it)
@@ -99,8 +109,8 @@ with s_ext_loop (fuel : nat) (cf : scfg) (it : sit) (back : sit) : bool * sit :=
           end
         else if N.eqb c cLB then
           match s_sequence cf it1 with
-          | Some it2 => go it2 it1
-          | None => go it1 it1
+          | Some it2 => go it2 back        (* the rewind position of the list is not touched by an inner bracket *)
+          | None => go it1 back
           end
         else go it1 back
       end
